@@ -77,11 +77,87 @@ func asRType(v Value) types.Type {
 	case RType:
 		return x.T
 	case Iface:
-		if rt, ok := x.V.(RType); ok {
-			return rt.T
+		switch o := x.V.(type) {
+		case RType:
+			return o.T
+		case *NativeObj:
+			if t, ok := o.State.(types.Type); ok {
+				return t
+			}
 		}
 	}
 	panic(unsupported("reflect.Type built outside the modelled API"))
+}
+
+// rtypeObj is a reflect.Type: an engine object behind the interface, with the methods the
+// configuration code uses (Field, NumField, Kind, Elem, Name, String).
+func (m *Machine) rtypeObj(t types.Type) Value {
+	o := &NativeObj{Name: "reflect.Type", State: t}
+	o.Methods = map[string]func(m *Machine, fr *frame, args []Value) Value{
+		"NumField": func(m *Machine, fr *frame, args []Value) Value {
+			st, ok := t.Underlying().(*types.Struct)
+			if !ok {
+				panic(unsupported("reflect.Type.NumField on " + t.String()))
+			}
+			return BV(64, uint64(st.NumFields()))
+		},
+		"Field": func(m *Machine, fr *frame, args []Value) Value {
+			st, ok := t.Underlying().(*types.Struct)
+			if !ok {
+				panic(unsupported("reflect.Type.Field on " + t.String()))
+			}
+			i := int(m.concretize(asTerm(args[len(args)-1]), "reflect.Type.Field"))
+			if i < 0 || i >= st.NumFields() {
+				m.rtPanic(fr, T.True, "reflect: Field index out of bounds")
+			}
+			rp := m.Prog.ImportedPackage("reflect")
+			if rp == nil || rp.Type("StructField") == nil {
+				panic(unsupported("reflect.StructField not in program"))
+			}
+			sft := rp.Type("StructField").Type()
+			sfs := sft.Underlying().(*types.Struct)
+			out := zero(sft).(Struct)
+			for k := 0; k < sfs.NumFields(); k++ {
+				switch sfs.Field(k).Name() {
+				case "Name":
+					out[k] = MkStr(st.Field(i).Name())
+				case "Type":
+					out[k] = m.rtypeObj(st.Field(i).Type())
+				case "Anonymous":
+					out[k] = Bool(st.Field(i).Embedded())
+				case "Tag":
+					out[k] = MkStr(st.Tag(i))
+				case "PkgPath":
+					if !st.Field(i).Exported() && st.Field(i).Pkg() != nil {
+						out[k] = MkStr(st.Field(i).Pkg().Path())
+					}
+				}
+			}
+			return out
+		},
+		"Kind":   func(m *Machine, fr *frame, args []Value) Value { return BV(64, reflectKind(t)) },
+		"String": func(m *Machine, fr *frame, args []Value) Value { return MkStr(t.String()) },
+		"Name": func(m *Machine, fr *frame, args []Value) Value {
+			if n, ok := t.(*types.Named); ok {
+				return MkStr(n.Obj().Name())
+			}
+			return MkStr("")
+		},
+		"Elem": func(m *Machine, fr *frame, args []Value) Value {
+			switch u := t.Underlying().(type) {
+			case *types.Pointer:
+				return m.rtypeObj(u.Elem())
+			case *types.Slice:
+				return m.rtypeObj(u.Elem())
+			case *types.Array:
+				return m.rtypeObj(u.Elem())
+			case *types.Map:
+				return m.rtypeObj(u.Elem())
+			}
+			panic(unsupported("reflect.Type.Elem on " + t.String()))
+		},
+	}
+	return Iface{T: types.Typ[types.UnsafePointer], V: o}
 }
 
 func init() {
@@ -93,7 +169,7 @@ func init() {
 		return BV(64, reflectKind(rv.T))
 	})
 	reg("(reflect.Value).Type", func(m *Machine, fr *frame, a []Value) Value {
-		return Iface{T: types.Typ[types.UnsafePointer], V: RType{asRV(a[0]).T}}
+		return m.rtypeObj(asRV(a[0]).T)
 	})
 	reg("reflect.New", func(m *Machine, fr *frame, a []Value) Value {
 		t := asRType(a[0])
@@ -129,6 +205,29 @@ func init() {
 			return RV{T: f.Type(), Addr: &(*rv.Addr).(Struct)[i], RO: ro}
 		}
 		return RV{T: f.Type(), V: rv.V.(Struct)[i], RO: ro}
+	})
+	reg("(reflect.Value).FieldByName", func(m *Machine, fr *frame, a []Value) Value {
+		rv := asRV(a[0])
+		st, ok := rv.T.Underlying().(*types.Struct)
+		if !ok {
+			panic(unsupported("reflect.Value.FieldByName on " + rv.T.String()))
+		}
+		name, isStr := a[1].(Str)
+		if !isStr || !name.IsConc() {
+			panic(unsupported("reflect.Value.FieldByName with a symbolic name"))
+		}
+		for i := 0; i < st.NumFields(); i++ {
+			f := st.Field(i)
+			if f.Name() != name.S {
+				continue
+			}
+			ro := rv.RO || !f.Exported()
+			if rv.Addr != nil {
+				return RV{T: f.Type(), Addr: &(*rv.Addr).(Struct)[i], RO: ro}
+			}
+			return RV{T: f.Type(), V: rv.V.(Struct)[i], RO: ro}
+		}
+		return RV{} // the zero Value: no such field (embedded fields are not searched)
 	})
 	reg("(reflect.Value).CanSet", func(m *Machine, fr *frame, a []Value) Value {
 		rv, ok := a[0].(RV)
